@@ -113,7 +113,7 @@ def rule_cache(ctx):
         ctx, "C17.CACHE", "C17", ["GridObject", "Curve"], 20,
         "every setter/method that stores an input field of a memoised geometry getter (centroids of Grid2D, BlockModel, "
         "Octree, DrapeModel; Curve cells<->parts) resets the cache on every path on which it stores",
-        only_props={"centroids", "parts"},
+        only_props={"centroids", "parts", "octree_cells"},
     )
 
 
@@ -194,6 +194,33 @@ def _backing(K, *props):
     return out
 
 
+def _transposed(fl, e, depth=0) -> bool:
+    """is the matrix expression an odd number of transpositions away from the matrix as it was built (`.T`, np.transpose(m), m.transpose(),
+    through the locals it was read into)"""
+    import ast
+
+    from ._c17_flow import call_name, key_of
+
+    par = False
+    env = None
+    while depth < 12:
+        depth += 1
+        if isinstance(e, ast.Attribute) and e.attr == "T":
+            par, e = not par, e.value
+        elif isinstance(e, ast.Call) and call_name(e) in ("transpose", "swapaxes"):
+            par = not par
+            e = e.func.value if isinstance(e.func, ast.Attribute) and not (isinstance(e.func.value, ast.Name) and e.func.value.id in ("np", "numpy")) else (e.args[0] if e.args else e)
+        elif key_of(e) is not None:
+            ds, entry = fl.reaching(e, env) if env is not None else fl.reaching(e) if fl.nodes_of(e) else ([], True)
+            strong = [d for d in ds if d.strong and d.value is not None and d.index is None]
+            if entry or len(strong) != 1 or len(ds) != 1:
+                break
+            e, env = strong[0].value, fl.env([strong[0].node])
+        else:
+            break
+    return par
+
+
 def _self_attr(sn, attr):
     import ast
 
@@ -212,10 +239,12 @@ def rule_rot(ctx) -> RuleResult:
         "(a) in every centroids getter that rotates, the operand of each rotation product (np.dot(rot, X) / M @ X) carries "
         "no origin term and the cached result does: cells are rotated about the origin, not about (0,0,0); (b) the cell "
         "sizes feeding BlockModel centroids are signed differences of the delimiters: nothing on the flow from the "
-        "delimiters to the cache discards the sign or the order (abs / sort / unique)",
+        "delimiters to the cache discards the sign or the order (abs / sort / unique); (c) all grid classes apply their rotation / dip "
+        "matrices in the same sense: matrix @ columns or rows @ matrix.T, never rows @ matrix (the inverse rotation)",
         floor=6,
     )
     p = ctx.p
+    senses = []
     for K in p.subclasses(p.cls("GridObject")):
         pr = K.props.get("centroids")
         if pr is None or pr.getter is None or pr.getter.cls is not K:
@@ -251,6 +280,11 @@ def rule_rot(ctx) -> RuleResult:
                 continue
             operands = [s for s in sides if s not in rot_sides] or sides[1:]
             products.append((n, operands))
+            # the sense the matrix is applied in: matrix @ columns, or rows @ matrix (which needs the transposed matrix)
+            if len(sides) == 2 and not (isinstance(n, ast.Call) and call_name(n) in ("einsum", "tensordot")):
+                pure = [i for i, s in enumerate(sides) if s in rot_sides and fields(s) <= rotf]
+                if len(pure) == 1:
+                    senses.append((K, g, n, (pure[0] == 1) ^ _transposed(fl, sides[pure[0]])))
         if not products:
             continue
         for prod, operands in products:
@@ -265,6 +299,17 @@ def rule_rot(ctx) -> RuleResult:
         res.inst(f"{K.name}.centroids: the cached array has the origin added", nontrivial=True, ok=cache_ok)
         if not cache_ok:
             res.find(K.name, "centroids", "the origin is never added to the centroids", pr.getter.where, "cell centres are reported in local coordinates")
+    # (c) every grid class applies its rotation / dip matrices in the same sense
+    if senses:
+        n_inv = sum(1 for x in senses if x[3])
+        expected = n_inv * 2 > len(senses)
+        for K, g, prod, sense in senses:
+            ok = sense == expected
+            res.inst(f"{K.name}.centroids:{prod.lineno} matrix applied in the same sense as in the sibling grids", nontrivial=True, ok=ok)
+            if not ok:
+                res.find(K.name, "centroids", "the rotation matrix is applied in the opposite sense to the sibling grid classes", f"{g.module.relpath}:{prod.lineno}",
+                         "M @ columns and rows @ M.T are the same rotation, rows @ M is the inverse one: this class turns its cells by -rotation where "
+                         "the other grid classes (same matrix constructors, same angle convention) turn theirs by +rotation")
     # (b) signed cell sizes
     bm = p.cls("BlockModel")
     for name in ("u_cells", "v_cells", "z_cells", "centroids"):
@@ -525,14 +570,15 @@ def rule_origin(ctx) -> RuleResult:
 def rule_parts(ctx) -> RuleResult:
     import ast
 
-    from ._c17_flow import Flow, key_of
+    from ._c17_flow import Flow, call_name, key_of
 
     res = RuleResult(
         "C17.PARTS",
         "C17",
         "part labels derived from the segments follow connectivity: where the getter of Curve.parts compares the end points of two "
         "segments (vertex indices read from the cells array) it tests whether they are the same vertex (== / !=), never how the two "
-        "indices are ordered — a vertex index is a name, not a position along the curve",
+        "indices are ordered — a vertex index is a name, not a position along the curve; and a running part count is accumulated "
+        "along the segments, never by a cumulative sum over an array with one entry per vertex",
         floor=0,
     )
     p = ctx.p
@@ -554,6 +600,7 @@ def rule_parts(ctx) -> RuleResult:
         sn = g.self_name or "self"
         fl = Flow(g.node)
         cells_keys = {f"{sn}.cells"} | {f"{sn}.{f}" for f in cells_fields}
+        vertex_fields = _backing(K, "vertices")
 
         def reads_segment_end(e):
             """e (or the expression a local it names was bound to) holds an element / a column of the cells array"""
@@ -576,6 +623,56 @@ def rule_parts(ctx) -> RuleResult:
                     res.find(getter.cls.name, "parts", "segment end points are compared by order, not by identity", f"{getter.module.relpath}:{c.lineno}",
                              "a new part is recognised only when the segment starts at a higher vertex index than the previous one ended: parts listed with "
                              "descending or interleaved vertex indices are merged into one label although they are not connected")
+        # (c) the labels handed to the setter are kept (or refused) on every path: never dropped silently
+        setter = m[2].setter
+        if setter is not None and len(setter.params) >= 2 and setter not in done:
+            from ..cfg import find_path
+
+            done.add(setter)
+            sv = ctx.view(setter)
+            ssn = sv.self_name or "self"
+            sfl = Flow(sv.node)
+            part_fields = {r.value.attr for r in ast.walk(getter.node) if isinstance(r, ast.Return) and isinstance(r.value, ast.Attribute)
+                           and isinstance(r.value.value, ast.Name) and r.value.value.id == (getter.self_name or "self")}
+            keep = set()
+            for st in ast.walk(sv.node):
+                if isinstance(st, (ast.Assign, ast.AnnAssign)) and st.value is not None and sfl.nodes_of(st.value):
+                    tg = st.targets if isinstance(st, ast.Assign) else [st.target]
+                    if any(key_of(t) in [f"{ssn}.{f}" for f in part_fields] for t in tg) and setter.params[1] in sfl.roots(st.value):
+                        keep |= set(sfl.nodes_of(st.value))
+            if keep:
+                escape = find_path(sfl.g, sfl.g.entry, lambda n: n is sfl.g.exit, avoid=lambda n: n in keep)
+                ok = escape is None
+                res.inst(f"{setter.qualname}: every path that returns has stored the labels", nontrivial=True, ok=ok)
+                if not ok:
+                    line = next((n.lineno for n in reversed(escape) if n.lineno), setter.node.lineno)
+                    res.find(setter.cls.name, "parts", "the labels handed to the setter are dropped on some path", f"{setter.module.relpath}:{line}",
+                             "the setter returns normally without having stored (or refused) the part labels — e.g. while the vertices are not set yet, as "
+                             "when `parts` precedes `vertices` among the keywords of create(): the curve silently gets the single chain joining all parts")
+        # (b) a running count accumulates along the segments, never along the vertex numbering
+        for c in ast.walk(g.node):
+            if not (isinstance(c, ast.Call) and fl.nodes_of(c) and call_name(c) in ("cumsum", "cumulative_sum", "accumulate", "nancumsum")):
+                continue
+            arg = c.func.value if isinstance(c.func, ast.Attribute) and key_of(c.func.value) not in ("np", "numpy", "np.add", "numpy.add") else (c.args[0] if c.args else None)
+            if arg is None:
+                continue
+            makers = []
+            exprs = [arg]
+            if key_of(arg) is not None:
+                ds, _entry = fl.reaching(arg)
+                exprs = [d.value for d in ds if d.strong and d.value is not None and d.index is None]
+            for e in exprs:
+                if isinstance(e, ast.Call) and call_name(e) in ("zeros", "ones", "empty", "full", "zeros_like", "ones_like", "empty_like", "full_like", "arange"):
+                    sized_by_vertices = any(isinstance(a, ast.Attribute) and (key_of(a) or "").startswith(f"{sn}.") and (a.attr in ("vertices", "n_vertices") or a.attr in vertex_fields)
+                                            for x in list(e.args) + [k.value for k in e.keywords] for a in fl.atoms(x, fl.env(fl.nodes_of(e)) if fl.nodes_of(e) else None))
+                    if sized_by_vertices:
+                        makers.append(e)
+            ok = not makers
+            res.inst(f"{getter.qualname}:{c.lineno} running count accumulated along the segments", nontrivial=True, ok=ok)
+            if not ok:
+                res.find(getter.cls.name, "parts", "labels are accumulated along the vertex numbering", f"{getter.module.relpath}:{c.lineno}",
+                         "a cumulative sum over an array with one entry per vertex follows the vertex indices, not the segments: it only gives connectivity "
+                         "when the vertices happen to be numbered in the order the segments visit them (parts [1,1,1,0,0,0] come back as one part)")
     return res
 
 
